@@ -447,3 +447,7 @@ class RunForMultiple(_SyncLoop):
     nsock = 2
     loops = {0: dict(anchor="while self.alive", cands=[("hb_ok", lambda L: L.st.ghost["hb_ok"])]),
              1: dict(anchor="for listener in ready", cands=[("hb_ok", lambda L: L.st.ghost["hb_ok"])])}
+
+
+def _getppid_stub(ex, st, self_v, args, kwargs, node):
+    return R1(ex, st, SInt(z3.Int("ppid.now")))
